@@ -214,3 +214,37 @@ PROPERTIES["C19"] = {
                      "(anonymous)::check(LEorLT)", "nano::parameter_t::value / value_pair", "nano::parameter_t::read / write", "nano::operator==(parameter_t)"]},
     ],
 }
+
+LIFT_TECH = "bounded model checking (CBMC 6.11, SAT) of C lifted from the clang-14 LLVM IR of the real functions; all indices/dimensions/bytes symbolic within stated ranges"
+LIFT_NOTE = ("trusted: clang-14 -O1, ir2c translator (validated differentially against the real C++ on every run), CBMC 6.11; bounded by --unwind with unwinding assertions; "
+             "malloc never fails; every harness has a witness twin whose assert(0) must be reachable")
+_C16_ROOTS = ["k_offset1", "k_offset2", "k_offset3", "k_offset4", "k_size4", "k_at3", "k_sub3", "k_vec3", "k_mat3", "k_sub4", "k_reshape3", "k_reshape2to3", "k_slice3",
+              "k_idiv", "k_iround", "k_integral1_i8_i32", "k_integral2_i8_i32", "k_integral2_i32_i64", "k_integral3_u8_i64"]
+_C16_H = [{"func": "h_offset4", "unwind": 8, "desc": "rank-4 offset: in range, row-major formula, injective, order preserving; all dims in 0..6 and indices symbolic"},
+          {"func": "h_offset123", "unwind": 8, "desc": "rank 1-3 offsets"},
+          {"func": "h_views3", "unwind": 8, "desc": "operator(), tensor(i0), vector(i0,i1), matrix(i0) alias the right elements"},
+          {"func": "h_views4", "unwind": 8, "desc": "tensor(i0,i1) of a rank-4 tensor"},
+          {"func": "h_reshape", "unwind": 8, "desc": "reshape rank3->rank2 incl. one inferred -1"},
+          {"func": "h_reshape23", "unwind": 8, "desc": "reshape rank2->rank3 incl. one inferred -1"},
+          {"func": "h_slice", "unwind": 8, "desc": "first-axis slice [b,e)"},
+          {"func": "h_idiv", "unwind": 4, "desc": "idiv/iround: round-half-up division"},
+          {"func": "h_integral1", "unwind": 7, "desc": "summed-area table rank 1, int8 -> int32, all contents symbolic"},
+          {"func": "h_integral2", "unwind": 11, "desc": "summed-area table rank 2 (<=2x3), int8 -> int32"},
+          {"func": "h_integral2w", "unwind": 8, "desc": "summed-area table rank 2 (<=2x3), int32 -> int64, full int32 range"},
+          {"func": "h_integral3", "unwind": 10, "desc": "summed-area table rank 3 (2x2x2), uint8 -> int64"}]
+PROPERTIES["C16"] = {
+    "level": "model_checking",
+    "level_text": "bounded model checking of the lifted real code: for ALL dimensions in 0..6 (rank<=4) and all index tuples, prefixes, slices and reshape factorisations (bit-vector symbolic), offsets are the row-major bijection, views/slices/reshapes alias exactly the elements of full indexing; summed-area tables equal naive prefix sums for all byte contents incl. narrow->wide scalar types",
+    "level_note": LIFT_NOTE,
+    "technique": LIFT_TECH,
+    "explanation": "C16: tensor index arithmetic and views lifted from include/nano/tensor/*.h through extern-C shims; CBMC decides every assertion for all symbolic dims/indices.",
+    "assumptions": ["dims bounded by 6 (rank 4 views: 5)", "buffers owned by the driver (tensor maps, no allocation)", "reshape precondition: the product of the given dims divides / equals the size"],
+    "bounds": {"rank": "1..4", "dims": "0..6", "integral shapes": "<= 5, <= 2x3, 2x2x2", "idiv": "n <= 255, d <= 16", "unwind": "4..11 with unwinding assertions"},
+    "outside": ["rank 5", "index gathers (indexed), remove_if, stack and owning-storage conversions (allocating code: not lifted)", "dims > 6"],
+    "units": [
+        {"engine": "lift", "name": "C16_tensor", "shim": "C16_shim.cpp", "driver": "C16_drv.c", "roots": _C16_ROOTS,
+         "quick": _C16_H, "thorough": _C16_H,
+         "encoded": ["nano::index<1..4>", "nano::size(dims)", "tensor_t::operator()", "tensor_t::tensor/vector/matrix(indices...)", "tensor_t::reshape (detail::reshape with -1)", "tensor_t::slice",
+                     "nano::idiv", "nano::iround", "nano::integral / integral_t<1..3>::get"]},
+    ],
+}
